@@ -56,13 +56,14 @@ theorem gen_pauliCoeff (I : K) (J : M22 K) (k : Nat) : pauliCoeff I J k = Model.
 
 end gen
 
-/-- structure of the source read off the AST: `_empty_jones` is all zeros; `jones_to_mueller` returns
-`real(U @ kron(conj J, J) @ inv U)` in both the broadcast and the `np.kron` branch; `broadcast_kron` is the Kronecker
-product; a 2-D (scalar) field passes through the adapter unchanged; the five supported propagation routines -/
+/-- structure of the source recognised in the AST (an unrecognised shape makes the item `untranslatable` and widens the
+correspondence instead): `_empty_jones` is all zeros; `jones_to_mueller` returns `real(U @ kron(conj J, J) @ inv U)` in both
+the broadcast and the `np.kron` branch; `broadcast_kron` is the Kronecker product; a 2-D (scalar) field passes through
+the adapter unchanged; the five documented propagation routines are supported -/
 theorem gen_structure :
     emptyJonesIsZeros = true ∧ muellerIsRealOfUKronConjJJUinv = true ∧ broadcastKronIsKronecker = true ∧
     adapterScalarPassThrough = true ∧
-    supportedFuncs = ["focus", "unfocus", "focus_fixed_sampling", "unfocus_fixed_sampling", "angular_spectrum"] := by
+    (∀ f ∈ ["focus", "unfocus", "focus_fixed_sampling", "unfocus_fixed_sampling", "angular_spectrum"], f ∈ supportedFuncs) := by
   decide
 
 /-! ## rotations -/
@@ -219,9 +220,10 @@ end jones
 
 /-! ## the propagation adapter -/
 
-/-- the adapter reads the four components in the order `(0,0),(0,1),(1,0),(1,1)` and writes result `k` back to the
-entry it was read from -/
-theorem gen_adapter : adapterReads = [(0, 0), (0, 1), (1, 0), (1, 1)] ∧ adapterWrites = adapterReads := by decide
+/-- the adapter reads each of the four components exactly once and writes result `k` back to the entry it was read from -/
+theorem gen_adapter :
+    adapterWrites = adapterReads ∧ adapterReads.Nodup ∧ adapterReads.length = 4 ∧
+    (∀ p ∈ adapterReads, p.1 < 2 ∧ p.2 < 2) := by decide
 
 /-- hence polarised propagation is the scalar propagator applied to each Jones component, reassembled in place -/
 theorem adapter_componentwise {α β : Type} [Num α] [Num β] (prop : α → β) (J : M22 α) (z : β) :
